@@ -13,7 +13,7 @@ namespace DD
 /-- `abs(u) in self._succ` as a proposition (for a manager that has its terminal) -/
 def MTbl.Mem (t : MTbl) (u : Int) : Prop := u.natAbs = 1 ∨ (t.node? u.natAbs).isSome
 
-instance (t : MTbl) (u : Int) : Decidable (t.Mem u) := by unfold MTbl.Mem; infer_instance
+instance MTbl.decMem (t : MTbl) (u : Int) : Decidable (t.Mem u) := by unfold MTbl.Mem; infer_instance
 
 /-- `self._succ[abs(u)][0]`, total -/
 def MTbl.levelOf (t : MTbl) (u : Int) : Nat :=
